@@ -4,6 +4,7 @@ a driver for the real in_toto_verify and the rendering for the model."""
 import base64
 import copy
 import datetime
+import hashlib
 import json
 import os
 import subprocess
@@ -46,12 +47,24 @@ class Env:
             signer = GPGSigner(keyid=key.gpg_keyid, homedir=self.gpg.home)
             msg = md.signed.signable_bytes
             sig = md.create_signature(signer)
-            # an OpenPGP signature covers its hashed headers too: the model asks its oracle about signature:other_headers
-            self.rows.append([sig.keyid, sig.signature + ":" + sig.other_headers, self._msg(msg)])
+            # the signed digest covers other_headers: the oracle value is signature|other_headers (Meta.gpg_sig_value)
+            self.rows.append([sig.keyid, sig.signature + "|" + sig.other_headers, self._msg(msg)])
             return sig
         msg = md.signed.signable_bytes if isinstance(md, Metablock) else md.pae()
         sig = md.create_signature(key.signer)
         self.rows.append([key.pub["keyval"]["public"], sig.signature, self._msg(msg)])
+        return sig
+
+    def gpg_sign(self, md, spec, faked=None, rewrite=None):
+        """append a real gpg signature to a Metablock.  spec '<keyid>' (gpg's default pick: newest signing subkey,
+        else the master) or '<keyid>!' (exactly that key); the table row records the key that really signed, also
+        when the keyid field of the signature dict is rewritten afterwards"""
+        msg = md.signed.signable_bytes
+        sig = self.gpg.sign(msg, spec, faked)
+        self.rows.append([sig["keyid"], sig["signature"] + "|" + sig["other_headers"], self._msg(msg)])
+        if rewrite:
+            sig = dict(sig, keyid=rewrite)
+        md.signatures.append(sig)
         return sig
 
     def close(self):
@@ -167,6 +180,21 @@ def tamper_file(rng, fj, how):
             s["keyid"] = ("f" if s["keyid"][0] != "f" else "0") + s["keyid"][1:]
         elif how == "unknown_field":
             fj["signed"]["unknown_field"] = "x"
+        elif how.startswith("gpg_") and fj["signatures"] and "other_headers" in fj["signatures"][0]:
+            # the gpg signature dict itself: other_headers is part of the signed digest and of the schema check
+            s = fj["signatures"][0]
+            oh = s["other_headers"]
+            if how == "gpg_oh_nibble":
+                s["other_headers"] = oh[:-1] + ("0" if oh[-1] != "0" else "1")
+            elif how == "gpg_oh_nonhex":
+                s["other_headers"] = "zz" + oh[2:]
+            elif how == "gpg_oh_odd":
+                s["other_headers"] = oh[:-1]
+            elif how == "gpg_sig_upper":
+                s["signature"] = s["signature"].upper()
+                s["other_headers"] = oh.upper()
+            elif how == "gpg_short_keyid_nonhex":
+                s["short_keyid"] = "xyz"
     else:
         if how == "edited":
             data = json.loads(base64.b64decode(fj["payload"]))
@@ -186,17 +214,73 @@ def tamper_file(rng, fj, how):
     return fj
 
 
+class _TagList(list):
+    """the scenario's tag list; additionally remembers at which nesting depth a tag was added"""
+
+    def __init__(self, builder):
+        super().__init__()
+        self._b = builder
+
+    def append(self, tag):
+        super().append(tag)
+        self._b.depth_tags.append((self._b.cur_depth, tag))
+
+
+def content_of(fj):
+    """the payload dict a serialised metadata file carries (either format)"""
+    if "signed" in fj:
+        return fj["signed"]
+    return json.loads(base64.b64decode(fj["payload"]))
+
+
+def content_status(d):
+    """'normal': a valid link/layout whose re-serialisation is itself (same content exists in both
+    formats); 'denormal': loads, but the loader normalises it; 'invalid': the loaders reject it"""
+    import attr
+    from in_toto.models.layout import Layout
+    from in_toto.models.link import Link
+    try:
+        t = d.get("_type")
+        d, d0 = copy.deepcopy(d), d          # Layout.read replaces the step dicts of its argument by objects
+        obj = Link.read(d) if t == "link" else Layout.read(d) if t == "layout" else None
+        d = d0
+        if obj is None:
+            return "invalid"
+        obj.validate()
+        back = json.loads(json.dumps(attr.asdict(obj), sort_keys=True))
+    except Exception:  # noqa
+        return "invalid"
+    return "normal" if back == json.loads(json.dumps(d, sort_keys=True)) else "denormal"
+
+
 class Builder:
     def __init__(self, env, rng, opts):
         self.env, self.rng, self.o = env, rng, opts
         self.uid = 0
-        self.tags = []
+        self.tags = _TagList(self)
+        self.gpg_left = opts.get("gpg_max", 2)    # gpg key bundles are big and the model's reader is slow on big requests
+        self.depth_tags = []     # (nesting depth, tag): where in the delegation tree a deviation sits
+        self.cur_depth = 0
+        self.specs = []          # per generated file: payload object, signers, tampering (re-rendering, C14)
+        self.last_layout_spec = None
         self.layouts = {}      # layout path ("" = root) -> what the builder knows about that layout (C07 oracle)
         self.ph_used = {}      # placeholder name -> value that makes the chain verify (C16)
 
     def fresh(self, p):
         self.uid += 1
         return "%s%d" % (p, self.uid)
+
+    def note_spec(self, payload, signers, dsse, fj, tamper=None, two_sigs=False):
+        """remember how a file was made so that it can be re-rendered in the other format"""
+        spec = {"payload": payload, "signers": list(signers), "dsse": bool(dsse), "tamper": tamper,
+                "two_sigs": two_sigs, "edited": None, "pinned": None}
+        if tamper in ("edited", "unknown_field"):
+            spec["edited"] = copy.deepcopy(content_of(fj))
+            st = content_status(spec["edited"])
+            if st != "normal":
+                spec["pinned"] = st        # no 'same content' exists in the other format
+        self.specs.append(spec)
+        return len(self.specs) - 1
 
     def pick_keys(self, n, exclude=()):
         pool = [k for k in self.env.pool if k.keyid not in exclude]
@@ -213,7 +297,8 @@ class Builder:
         info = {"variant": variant, "insp": [], "behave": {}, "rule_violation": False, "depth": depth}
         self.layouts[lpath] = info
         ph = self.o.get("ph")
-        nsteps = rng.choice([1, 1, 2, 2, 3]) if depth == 0 else rng.choice([1, 1, 2])
+        self.cur_depth = depth
+        nsteps = rng.choice(self.o.get("nsteps") or [1, 1, 2, 2, 3]) if depth == 0 else rng.choice([1, 1, 2])
         if self.o.get("allow_empty") and rng.random() < 0.04:
             nsteps = 0
         nsteps = min(nsteps, self.o.get("max_steps", 99))
@@ -233,8 +318,14 @@ class Builder:
             thr = rng.randrange(1, len(fkeys) + 1)
             if self.o.get("threshold_heavy") and len(fkeys) > 1:
                 thr = rng.randrange(2, len(fkeys) + 1)
+            plan = None
+            if any(self.o.get(x) for x in ("gpg", "c05", "inv_next", "p_family", "multi_short")):
+                fkeys, thr, plan = self.plan_step(fkeys, thr)
             for k in fkeys:
-                layout_keys[k.keyid] = k.pub
+                if isinstance(k, GF):
+                    layout_keys.update(k.store)
+                else:
+                    layout_keys[k.keyid] = k.pub
             M, P = flows[i], flows[i + 1]
             em = [] if i == 0 else [["MATCH", "*", "WITH", "PRODUCTS", "FROM", names[i - 1]], ["DISALLOW", "*"]]
             ep = rng.choice([[["ALLOW", "*"]], [["CREATE", "*"], ["MODIFY", "*"], ["ALLOW", "*"]], [],
@@ -254,8 +345,12 @@ class Builder:
             if self.late_ep:
                 late.append((len(steps) - 1, self.late_ep))
             others = [x for x in names if x != name]
-            for k in fkeys:
-                self.add_evidence(tree, depth, name, k, M, P, fkeys, others, lpath=lpath)
+            for ki, k in enumerate(fkeys):
+                if plan is None:
+                    self.add_evidence(tree, depth, name, k, M, P, fkeys, others, lpath=lpath)
+                else:
+                    self.add_evidence(tree, depth, name, k, M, P, fkeys, others, directive=plan[ki], lpath=lpath)
+                self.cur_depth = depth
             # an unauthorised functionary's link lying around
             if rng.random() < 0.15:
                 stranger = self.pick_keys(1, exclude=[k.keyid for k in fkeys])
@@ -299,8 +394,8 @@ class Builder:
         info["expires"] = expires
         layout = Layout(steps=steps, inspect=inspections, keys=layout_keys, expires=expires,
                         readme=rng.choice(["", "read me", "é\"\\\n"]))
-        as_dsse = self.dsse() if dsse is None else dsse
-        md = None if as_dsse else make_md(layout, False)
+        is_dsse = self.dsse() if dsse is None else dsse
+        md = None if is_dsse else make_md(layout, False)
         for idx, rules in late:
             # rules the constructors refuse: assigned afterwards, so that they get signed and the loader sees them
             layout.steps[idx].expected_products = rules
@@ -323,6 +418,8 @@ class Builder:
                 # e.g. the "_type" of a step, which the loader overwrites: not an edit of the content
                 info["variant"] = "edited_preserved"
                 self.tags.append("layout_edit_preserved")
+        self.last_layout_spec = self.note_spec(layout, signers, is_dsse, fj,
+                                               tamper=variant if variant in ("edited", "sig_nibble") else None)
         return fj, tree
 
     # -- C16: placeholders at every position the verifier substitutes ----------------------------
@@ -415,16 +512,27 @@ class Builder:
         iprod = rng.choice([[], [], [["ALLOW", g("P2")]], [["CREATE", g("P1")], ["ALLOW", "*"]]])
         return run, ie, iprod
 
-    def add_evidence(self, tree, depth, step, key, M, P, fkeys, other_steps, lpath=""):
+    def add_evidence(self, tree, depth, step, key, M, P, fkeys, other_steps, directive=None, lpath=""):
         rng = self.rng
+        if directive is not None:
+            return self.add_planned(tree, depth, step, key, M, P, fkeys, other_steps, directive)
         if depth < self.o.get("max_depth", 2) and rng.random() < self.o.get("p_sub", 0.12) and key.kind != "gpg":
             variant = rng.choice(LAYOUT_VARIANTS) if self.o.get("deviate", True) and rng.random() < 0.5 else "honest"
             if self.o.get("sub_variants"):
                 variant = rng.choice(self.o["sub_variants"])
+            sub_owners = [key]
+            if variant == "auth_other_signer":
+                # signed by ANOTHER functionary authorised for the same step, stored under this one's name
+                cand = [k for k in fkeys if k.keyid != key.keyid]
+                variant = "honest"
+                if cand:
+                    sub_owners = [rng.choice(cand)]
+                    self.tags.append("sublayout_auth_other_signer")
             dirname = "%s.%s" % (step, key.keyid[:8])
-            fj, sub = self.build_layout(depth + 1, M, P, [key], variant=variant, logpath=self.o.get("logpath"),
+            fj, sub = self.build_layout(depth + 1, M, P, sub_owners, variant=variant, logpath=self.o.get("logpath"),
                                         lpath=(lpath + "/" if lpath else "") + dirname)
-            tree["files"]["%s.%s.link" % (step, key.keyid[:8])] = {"json": fj}
+            self.cur_depth = depth
+            tree["files"]["%s.%s.link" % (step, key.keyid[:8])] = {"json": fj, "spec": self.last_layout_spec}
             r = rng.random()
             if variant == "honest" and self.o.get("deviate", True) and r < 0.08:
                 tree["files"].update(sub["files"])       # sub-links placed in the parent's directory
@@ -440,18 +548,22 @@ class Builder:
             variant = rng.choice(self.o["link_variants"])
         self.add_link(tree, step, key, M, P, variant, fkeys, other_steps)
 
-    def add_link(self, tree, step, key, M, P, variant, fkeys, other_steps):
+    def add_link(self, tree, step, key, M, P, variant, fkeys, other_steps, gfile=None, mut=None):
         from in_toto.models.link import Link
         rng = self.rng
         if variant != "honest":
             self.tags.append("link_" + variant)
         if variant == "missing":
             return
-        fname = "%s.%s.link" % (step, key.keyid[:8])
+        fname = "%s.%s.link" % (step, (gfile["fname"] if gfile else key.keyid)[:8])
         if variant == "malformed":
             tree["files"][fname] = {"malformed": True}
             return
         M2, P2 = copy.deepcopy(M), copy.deepcopy(P)
+        if mut:
+            mutate_artifacts(rng, M2, P2, mut[0], mut[1])
+        if gfile is not None or variant == "family_mismatch":
+            return self.add_link_x(tree, step, key, M2, P2, variant, fkeys, other_steps, gfile, fname)
         if variant == "disagree_mat":
             M2["extra"] = hashrec(rng)
         if variant == "disagree_prod":
@@ -464,7 +576,8 @@ class Builder:
             name = rng.choice(other_steps) if other_steps else step + "x"
         link = Link(name=name, materials=M2, products=P2, command=["build"],
                     byproducts=rng.choice([{}, {"return-value": 0, "stdout": "é\n", "stderr": ""}]))
-        md = make_md(link, self.dsse())
+        is_dsse = self.dsse()
+        md = make_md(link, is_dsse)
         signer = key
         if variant == "wrong_signer":
             cand = self.pick_keys(1, exclude=[key.keyid])
@@ -481,7 +594,7 @@ class Builder:
                     raw[0] ^= 1
                     bad["sig"] = base64.b64encode(bytes(raw)).decode()
             fj["signatures"].insert(0, bad)
-            tree["files"][fname] = {"json": fj}
+            tree["files"][fname] = {"json": fj, "spec": self.note_spec(link, [signer], is_dsse, fj, two_sigs=True)}
             return
         if variant != "unsigned":
             self.env.sign(md, signer)
@@ -491,7 +604,315 @@ class Builder:
         if variant == "other_keyid_name" and len(fkeys) > 1:
             other = rng.choice([k for k in fkeys if k.keyid != key.keyid])
             fname = "%s.%s.link" % (step, other.keyid[:8])
+        tree["files"][fname] = {"json": fj, "spec": self.note_spec(
+            link, [] if variant == "unsigned" else [signer], is_dsse, fj,
+            tamper=variant if variant in ("edited", "sig_nibble", "sig_keyid", "sig_nonhex", "unknown_field") else None)}
+
+
+    # -- planned steps: gpg functionaries, C05 dissent, invalid links next to enough valid ones ---------
+    def plan_step(self, fkeys, thr):
+        """-> (functionaries, threshold, per-functionary directives).  Only reached when one of the options
+        gpg / c05 / inv_next / p_family is set, so the default random stream is untouched."""
+        rng, o = self.rng, self.o
+        mode = None
+        if o.get("c05") and o.get("inv_next"):
+            mode = rng.choice(["c05", "inv_next"])
+        elif o.get("c05"):
+            mode = "c05"
+        elif o.get("inv_next") and rng.random() < o["inv_next"]:
+            mode = "inv_next"
+        elif o.get("multi_short") and self.env.gpg is not None and self.gpg_left > 0 and rng.random() < o["multi_short"]:
+            mode = "multi_short"
+        if mode == "c05":
+            nf = rng.choice([2, 2, 3, 3, 3, 4])
+            fkeys = self.pick_keys(nf)
+            thr = rng.choice([1] + list(range(2, nf + 1)) * 2)
+        elif mode == "inv_next":
+            thr = rng.choice([1, 1, 2, 2, 3])
+            fkeys = self.pick_keys(thr + rng.choice([1, 1, 2]))
+        fkeys = list(fkeys)
+        if mode == "multi_short":
+            # a gpg master with several valid files (master / subkeys) and thr-2 further valid functionaries:
+            # enough valid FILES, one functionary short of the threshold
+            gf = make_gf(rng, self.env.gpg, set(), shapes=["master_multi"])
+            self.gpg_left -= 1
+            others = self.pick_keys(rng.choice([1, 1, 2]))
+            thr = rng.randrange(2, len(others) + 2)
+            plan = [{"variant": "honest"} if j < thr - 2 else {"variant": rng.choice(INVALID_VARIANTS + ["missing"])}
+                    for j in range(len(others))]
+            both = list(zip([gf] + others, [{"variant": "honest", "all_files": True}] + plan))
+            rng.shuffle(both)
+            self.tags += [gf.tag, "several_files_short_of_threshold:t%d:files%d" % (thr, len(gf.files))]
+            return [b[0] for b in both], thr, [b[1] for b in both]
+        if o.get("gpg") and self.env.gpg is not None:
+            used = set()
+            for i in range(len(fkeys)):
+                if rng.random() < o["gpg"] and self.gpg_left > 0:
+                    gf = make_gf(rng, self.env.gpg, used, shapes=o.get("gpg_shapes"))
+                    if gf is not None:
+                        fkeys[i] = gf
+                        used.add(gf.keyid)
+                        self.gpg_left -= 1
+                        self.tags.append(gf.tag)
+        n = len(fkeys)
+        plan = [{} for _ in fkeys]
+        if mode == "c05":
+            what = rng.choice(o.get("c05_mix") or ["valid"] * 5 + ["valid+invalid"] * 3 + ["invalid_only"] * 5 + ["none"] * 7)
+            pos = rng.choice(["first", "last"] if n == 2 else ["first", "middle", "last"])
+            idx = {"first": 0, "last": n - 1}.get(pos, None)
+            if idx is None:
+                idx = rng.randrange(1, n - 1)
+            if what.startswith("valid"):
+                kind, how = rng.choice(["mat", "prod"]), rng.choice(MUT_HOWS)
+                plan[idx] = {"variant": "honest", "mut": (kind, how)}
+                if isinstance(fkeys[idx], GF) and len(fkeys[idx].files) > 1 and rng.random() < 0.5:
+                    plan[idx]["mut_file"] = rng.randrange(len(fkeys[idx].files))
+                    self.tags.append("c05_same_functionary_dissent")
+                self.tags.append("c05_dissent:%s:%s:%s:n%d:t%d" % (kind, pos, how, n, thr))
+            if what.endswith("invalid") or what == "invalid_only":
+                others = [j for j in range(n) if j != idx or what == "invalid_only"]
+                for j in rng.sample(others, min(len(others), rng.choice([1, 1, 2]))):
+                    v = rng.choice(INVALID_VARIANTS)
+                    plan[j] = {"variant": v, "mut": (rng.choice(["mat", "prod"]), rng.choice(MUT_HOWS)), "all_files": True}
+                    self.tags.append("c05_invalid_dissent:%s:%s" % (v, "first" if j == 0 else "last" if j == n - 1 else "middle"))
+                if rng.random() < 0.3:
+                    plan[0]["stranger"] = True
+            if what == "none":
+                self.tags.append("c05_agree:n%d:t%d" % (n, thr))
+            # the other functionaries: the usual catalogue (opts link_variants / p_sub decide; C05 uses honest + sublayouts)
+        elif mode == "inv_next":
+            bad = rng.sample(range(n), n - thr)
+            vs = []
+            for j in bad:
+                v = rng.choice(INVALID_VARIANTS + (["gpg_expired"] if o.get("gpg") and self.env.gpg is not None and self.gpg_left > 0 else []))
+                if v == "gpg_expired":
+                    self.gpg_left -= 1
+                    fkeys[j] = make_gf(rng, self.env.gpg, set(), shapes=["expired_dead"])
+                    self.tags.append(fkeys[j].tag)
+                    v = "honest"
+                    vs.append("expired")
+                else:
+                    vs.append(v)
+                plan[j] = {"variant": v, "all_files": True}
+                if rng.random() < 0.7:
+                    plan[j]["mut"] = (rng.choice(["mat", "prod"]), rng.choice(MUT_HOWS))
+            for j in range(n):
+                plan[j].setdefault("variant", "honest")
+            self.tags.append("invalid_next_to_valid:t%d:%s" % (thr, "+".join(sorted(vs))))
+        return fkeys, thr, plan
+
+    def add_planned(self, tree, depth, step, key, M, P, fkeys, other_steps, d):
+        rng, o = self.rng, self.o
+        variant, mut = d.get("variant"), d.get("mut")
+        if d.get("stranger"):
+            cand = self.pick_keys(1, exclude=[k.keyid for k in fkeys])
+            if cand:
+                self.add_link(tree, step, cand[0], rand_artifacts(rng), rand_artifacts(rng), "honest", fkeys, other_steps)
+                self.tags.append("stranger_link")
+        if variant is None and not isinstance(key, GF):
+            if o.get("p_family") and rng.random() < o["p_family"]:
+                return self.add_link(tree, step, key, M, P, "family_mismatch", fkeys, other_steps)
+            return self.add_evidence(tree, depth, step, key, M, P, fkeys, other_steps)
+        if variant is None:
+            variant = rng.choice(LINK_VARIANTS) if o.get("deviate", True) else "honest"
+            if o.get("link_variants"):
+                variant = rng.choice(o["link_variants"])
+            if o.get("p_family") and rng.random() < o["p_family"]:
+                variant = "family_mismatch"
+        if not isinstance(key, GF):
+            return self.add_link(tree, step, key, M, P, variant, fkeys, other_steps, mut=mut)
+        dev = None if d.get("all_files") else rng.randrange(len(key.files))
+        for gi, gfile in enumerate(key.files):
+            v = variant if dev is None or gi == dev else "honest"
+            m = mut if d.get("mut_file") is None or d["mut_file"] == gi else None
+            self.add_link(tree, step, key, M, P, v, fkeys, other_steps, gfile=gfile, mut=m)
+        if len(key.files) > 1:
+            self.tags.append("several_files_per_functionary:%d" % len(key.files))
+
+    def add_link_x(self, tree, step, key, M2, P2, variant, fkeys, other_steps, gfile, fname):
+        """links of gpg functionaries (traditional format only) and signature/key family mismatches"""
+        from in_toto.models.link import Link
+        rng = self.rng
+        if variant == "disagree_mat":
+            M2["extra"] = hashrec(rng)
+        if variant == "disagree_prod":
+            if P2 and rng.random() < 0.5:
+                P2[next(iter(P2))] = hashrec(rng)
+            else:
+                P2["extra"] = hashrec(rng)
+        name = step
+        if variant == "replayed_name":
+            name = rng.choice(other_steps) if other_steps else step + "x"
+        link = Link(name=name, materials=M2, products=P2, command=["build"],
+                    byproducts=rng.choice([{}, {"return-value": 0, "stdout": "é\n", "stderr": ""}]))
+        if variant == "family_mismatch":
+            return self.add_family_mismatch(tree, link, key, gfile, fname)
+        md = make_md(link, False)
+        if variant == "wrong_signer":
+            self.env.sign(md, self.pick_keys(1)[0])
+        elif variant != "unsigned":
+            self.env.gpg_sign(md, gfile["spec"], gfile.get("faked"), gfile.get("rewrite"))
+            if variant == "two_sigs_bad_first":
+                bad = copy.deepcopy(md.signatures[-1])
+                bad["signature"] = ("0" if bad["signature"][0] != "0" else "1") + bad["signature"][1:]
+                md.signatures.insert(0, bad)
+        fj = to_file(md)
+        if variant == "sig_nonhex":
+            variant = "sig_nibble"      # a non-hex gpg signature value is a FormatError of the gpg schema check: see family_mismatch
+        if variant in ("edited", "sig_nibble", "sig_keyid", "unknown_field"):
+            fj = tamper_file(rng, fj, variant)
+        if variant == "honest" and self.o.get("p_gpg_sigdict") and rng.random() < self.o["p_gpg_sigdict"]:
+            how = rng.choice(GPG_SIGDICT_TAMPERS)
+            fj = tamper_file(rng, fj, how)
+            self.tags.append("gpg_sigdict:" + how)
+        if variant == "other_keyid_name" and len(fkeys) > 1:
+            other = rng.choice([k for k in fkeys if k.keyid != key.keyid])
+            fname = "%s.%s.link" % (step, other.keyid[:8])
         tree["files"][fname] = {"json": fj}
+
+    def add_family_mismatch(self, tree, link, key, gfile, fname):
+        """a link for an authorised key carrying a signature dict of the OTHER key family under a matching key id
+        (known finding D2b: verify_signature raises FormatError / ValueError, which nobody catches)"""
+        rng = self.rng
+        if gfile is None:
+            md = make_md(link, False)
+            if self.env.gpg is not None and rng.random() < 0.7:
+                self.env.gpg_sign(md, rng.choice([hk.GPG_MASTER, hk.GPG_MASTER2 + "!", hk.GPG_M4_S1 + "!"]), rewrite=key.keyid)
+                self.tags.append("family_mismatch:gpg_sig_sslib_key:real")
+            else:
+                md.signatures.append({"keyid": key.keyid, "signature": "%0128x" % rng.getrandbits(512), "other_headers": "04000108"})
+                self.tags.append("family_mismatch:gpg_sig_sslib_key:handmade")
+            tree["files"][fname] = {"json": to_file(md)}
+            return
+        dsse = rng.random() < 0.25
+        md = make_md(link, dsse)
+        self.env.sign(md, self.pick_keys(1)[0])
+        fj = to_file(md)
+        subs = list((key.store.get(key.keyid) or {}).get("subkeys", {}))
+        target = rng.choice([gfile["fname"], gfile["fname"], key.keyid] + subs)
+        fj["signatures"][0]["keyid"] = target
+        self.tags.append("family_mismatch:%s" % ("dsse_for_gpg_key" if dsse else "sslib_sig_gpg_key"))
+        tree["files"][fname] = {"json": fj}
+
+
+# ------------------------------------------------------------------------------------------------
+# gpg functionaries
+MUT_HOWS = ["add", "remove", "nibble", "rename", "extra_alg"]
+# tampering with the gpg signature dict: other_headers altered (invalid: skipped), upper-case hex (still valid),
+# schema violations (FormatError, D2b) and an odd number of hex digits (binascii.Error, a ValueError: D2b as well)
+GPG_SIGDICT_TAMPERS = ["gpg_oh_nibble", "gpg_oh_nibble", "gpg_sig_upper", "gpg_sig_upper", "gpg_oh_nonhex", "gpg_oh_odd",
+                       "gpg_short_keyid_nonhex"]
+INVALID_VARIANTS = ["unsigned", "wrong_signer", "edited", "sig_nibble", "sig_keyid", "replayed_name"]
+
+
+def mutate_artifacts(rng, M, P, kind, how):
+    """change ONE path or hash record of the materials (kind 'mat') or products ('prod') in place"""
+    d = M if kind == "mat" else P
+    if how != "add" and not d:
+        how = "add"
+    if how == "add":
+        d["added/%d" % rng.randrange(1000)] = hashrec(rng)
+        return how
+    k = rng.choice(sorted(d))
+    if how == "remove":
+        del d[k]
+    elif how == "rename":
+        d[k + ".renamed"] = d.pop(k)
+    elif how == "extra_alg":
+        d[k] = dict(d[k], sha512="%0128x" % rng.getrandbits(512))
+    else:
+        h = d[k]["sha256"]
+        i = rng.randrange(len(h))
+        d[k] = dict(d[k], sha256=h[:i] + "%x" % (int(h[i], 16) ^ (1 << rng.randrange(4))) + h[i + 1:])
+    return how
+
+
+class GF:
+    """a gpg functionary of one step: the key id the step authorises, the key-store entries the layout holds for
+    it, and the link files that exist: dicts {fname: key id the file is named after, spec: signer given to gpg,
+    faked: gpg system time or None, rewrite: key id written into the signature dict afterwards or None}"""
+    kind = "gpg"
+
+    def __init__(self, keyid, store, files, tag):
+        self.keyid, self.store, self.files, self.tag = keyid, store, files, tag
+        self.pub = store.get(keyid)
+
+    def __repr__(self):
+        return "GF(%s)" % self.tag
+
+
+GPG_SHAPES = ["master"] * 5 + ["subkey_alone"] * 6 + ["expired_dead", "expired_live"]
+
+
+def make_gf(rng, gpg, used, shapes=None):
+    """draw one gpg functionary whose authorised id is not in [used]"""
+    for _ in range(8):
+        gf = _make_gf(rng, gpg, rng.choice(shapes or GPG_SHAPES))
+        if gf.keyid not in used:
+            return gf
+    return None
+
+
+def _make_gf(rng, gpg, shape):
+    f = lambda fname, spec, **kw: dict(fname=fname, spec=spec, **kw)
+    sh = lambda k: k[:4]
+    if shape in ("master", "master_multi"):
+        m = rng.choice([hk.GPG_MASTER, hk.GPG_MASTER4, hk.GPG_MASTER4] + ([hk.GPG_MASTER2] if shape == "master" else []))
+        store = {m: gpg.pub(m)}
+        subs = hk.GPG_SIGNING_SUBKEYS[m]
+        default = subs[-1] if subs else m
+        # (name of the combination, file-name key id, signer)
+        combos = [("master_self", m, m + "!"), ("default_pick", default, m)]
+        for sk in subs:
+            combos.append(("subkey_named_subkey", sk, sk + "!"))
+            combos.append(("subkey_named_master", m, sk + "!"))
+            combos.append(("master_named_subkey", sk, m + "!"))
+        if len(subs) > 1:
+            combos.append(("subkey_named_sibling", subs[0], subs[1] + "!"))
+        enc = [k for k in store[m].get("subkeys", {}) if k not in subs]
+        if enc and subs:
+            combos.append(("subkey_named_encsub", enc[0], subs[-1] + "!"))
+        nfiles = rng.choice([1, 1, 1, 2, 2, 3] if shape == "master" else [2, 2, 3]) if subs else 1
+        chosen, seen = [], set()
+        for c in rng.sample(combos, len(combos)):
+            if c[1] not in seen and len(chosen) < nfiles:
+                chosen.append(c)
+                seen.add(c[1])
+        return GF(m, store, [f(c[1], c[2]) for c in chosen], "gpg_master:%s:%s" % (sh(m), "+".join(c[0] for c in chosen)))
+    if shape == "subkey_alone":
+        m, s_ = rng.choice([(hk.GPG_MASTER, hk.GPG_SIGN_SUB), (hk.GPG_MASTER4, hk.GPG_M4_S1), (hk.GPG_MASTER4, hk.GPG_M4_S1),
+                            (hk.GPG_MASTER4, hk.GPG_M4_S2)])
+        how_store = rng.choice(["store_master", "store_master", "store_sub", "store_sub", "store_both"])
+        store = {}
+        if how_store in ("store_master", "store_both"):
+            store[m] = gpg.pub(m)
+        if how_store in ("store_sub", "store_both"):
+            store[s_] = gpg.sub_entry(m, s_)
+        sib = [k for k in hk.GPG_SIGNING_SUBKEYS[m] if k != s_]
+        signers = ["self"] * 4 + ["master", "master"] + (["sibling", "sibling", "sibling_relabelled"] if sib else [])
+        who = rng.choice(signers)
+        spec = {"self": s_ + "!", "master": m + "!"}.get(who) or sib[0] + "!"
+        files = [f(s_, spec, rewrite=s_ if who == "sibling_relabelled" else None)]
+        extra = ""
+        if rng.random() < 0.25:      # a second file named after the master: never loaded when only the subkey is authorised
+            files.append(f(m, rng.choice([m + "!", s_ + "!"])))
+            extra = "+file_named_master"
+        return GF(s_, store, files, "gpg_subkey_alone:%s:%s:signer_%s%s" % (sh(s_), how_store, who, extra))
+    x = hk.GPG_EXPIRED
+    store = {x: gpg.pub(x)}
+    ft = hk.GPG_EXPIRED_FAKED_TIME
+    if shape == "expired_live":
+        # the expired master's signing subkey WITHOUT expiry date: the code (and the model) accept it
+        return GF(x, store, [f(hk.GPG_EXP_SUB_LIVE, hk.GPG_EXP_SUB_LIVE + "!", faked=ft)], "gpg_expired:subkey_without_expiry")
+    who = rng.choice(["master", "master", "expired_subkey", "both"])
+    files = []
+    if who in ("master", "both"):
+        files.append(f(x, x + "!", faked=ft))
+    if who in ("expired_subkey", "both"):
+        # the expired subkey is an encryption key and cannot sign: a signature of the master labelled with its id
+        # makes verification select that subkey (whose own validity period is over as well)
+        files.append(f(hk.GPG_EXP_SUB_EXPIRED, x + "!", faked=ft, rewrite=hk.GPG_EXP_SUB_EXPIRED))
+    return GF(x, store, files, "gpg_expired:%s" % who)
 
 
 def build(rng, env, opts, workdir):
@@ -579,8 +1000,8 @@ def build(rng, env, opts, workdir):
             b.tags.append("now=expiry%+d" % d)
         except ValueError:
             pass
-    scen = {"root": {"json": root}, "dir": tree, "keys": vkeys, "params": params, "now_us": now,
-            "tags": b.tags, "logpath": abs_logpath, "layouts": b.layouts}
+    scen = {"root": {"json": root, "spec": b.last_layout_spec}, "dir": tree, "keys": vkeys, "params": params, "now_us": now,
+            "tags": b.tags, "logpath": abs_logpath, "layouts": b.layouts, "specs": b.specs, "depth_tags": b.depth_tags}
     if opts.get("ph"):
         seq, kinds = ph_params_seq(rng, b.ph_used, opts.get("seq", True))
         scen["params_seq"] = seq
@@ -588,6 +1009,7 @@ def build(rng, env, opts, workdir):
         scen["ph_used"] = b.ph_used
         scen["scrub"] = rng.random() < 0.5
         b.tags.extend("params:" + k for k in kinds)
+    scen["tags"] = list(b.tags)
     return scen
 
 
@@ -653,6 +1075,68 @@ def ph_params_seq(rng, used, seq=True):
     r3, k3 = ph_params(rng, used)
     return rng.choice([([p, copy.deepcopy(p), copy.deepcopy(p)], [k, "same", "same"]),
                        ([p, q, copy.deepcopy(p)], [k, kq, "again"]), ([p, q, r3], [k, kq, k3])])
+
+
+# ------------------------------------------------------------------------------------------------
+# re-rendering in the other format (C14)
+def render(env, spec, dsse):
+    """the file a spec describes, materialised as traditional metadata (dsse=False) or as a DSSE
+    envelope (dsse=True): same payload object, re-signed by the same signers, same tampering"""
+    md = make_md(spec["payload"], dsse)
+    for k in spec["signers"]:
+        env.sign(md, k)
+    fj = to_file(md)
+    t = spec["tamper"]
+    if spec["two_sigs"]:
+        bad = copy.deepcopy(fj["signatures"][0])
+        if "signed" in fj:
+            bad["sig"] = ("0" if bad["sig"][0] != "0" else "1") + bad["sig"][1:]
+        else:
+            raw = bytearray(base64.b64decode(bad["sig"]))
+            raw[0] ^= 1
+            bad["sig"] = base64.b64encode(bytes(raw)).decode()
+        fj["signatures"].insert(0, bad)
+    elif t in ("edited", "unknown_field"):
+        if "signed" in fj:
+            fj["signed"] = copy.deepcopy(spec["edited"])
+        else:
+            fj["payload"] = base64.b64encode(json.dumps(spec["edited"], sort_keys=True).encode()).decode()
+    elif t:
+        fj = tamper_file(None, fj, t)
+    return fj
+
+
+def reassign(rng, scen, env, mode="random"):
+    """a copy of the scenario in which every re-renderable file independently gets a format
+    (mode 'random'), or all get traditional ('mb') / DSSE ('dsse') / the opposite of what they have ('flip').
+    Returns (new scenario, {'files':, 'changed':, 'pinned':})"""
+    specs = scen["specs"]
+    st = {"files": 0, "changed": 0, "pinned": 0}
+
+    def one(f):
+        if "spec" not in f or f["spec"] is None or "json" not in f:
+            return dict(f)
+        sp = specs[f["spec"]]
+        st["files"] += 1
+        if sp["pinned"] or any(k.kind == "gpg" for k in sp["signers"]):
+            st["pinned"] += 1
+            return dict(f)
+        was = "payload" in f["json"]
+        want = {"mb": False, "dsse": True, "flip": not was}.get(mode)
+        if want is None:
+            want = rng.random() < 0.5
+        if want == was:
+            return dict(f)
+        st["changed"] += 1
+        return {"json": render(env, sp, want), "spec": f["spec"]}
+
+    def walk(t):
+        return {"files": {n: one(f) for n, f in t["files"].items()},
+                "dirs": {n: walk(s) for n, s in t["dirs"].items()}}
+    new = dict(scen)
+    new["root"] = one(scen["root"])
+    new["dir"] = walk(scen["dir"])
+    return new, st
 
 
 # ------------------------------------------------------------------------------------------------
@@ -928,3 +1412,191 @@ def _first_diff(a, b, path=""):
             if x != y:
                 return _first_diff(x, y, path + "/%d" % i)
     return "%s: %r vs %r" % (path, a, b)
+
+
+# ------------------------------------------------------------------------------------------------
+# hand-built (pinned) scenarios and the runner used by C02 C05 C08
+class Pin:
+    """one layout with explicit steps, key store and link files: deterministic regressions / known findings"""
+
+    def __init__(self, env):
+        self.env = env
+        self.steps, self.keys, self.files, self.dirs = [], {}, {}, {}
+
+    @staticmethod
+    def art(*names, salt=""):
+        return {n: {"sha256": hashlib.sha256((salt + n).encode()).hexdigest()} for n in names}
+
+    def step(self, name, pubkeys, threshold=1, em=None, ep=None):
+        from in_toto.models.layout import Step
+        self.steps.append(Step(name=name, pubkeys=list(pubkeys), threshold=threshold,
+                               expected_materials=em or [], expected_products=ep or [["ALLOW", "*"]],
+                               expected_command=["build"]))
+
+    def store(self, entries):
+        self.keys.update(entries)
+
+    def link(self, step, fname_id, signer, M=None, P=None, name=None, dsse=False, rewrite=None, faked=None, tamper=None):
+        """file <step>.<fname_id[:8]>.link holding a link named [name or step].  signer: an sslib K, ("gpg", spec),
+        a list of those, or None.  rewrite: key id written over the signature's keyid field in the file."""
+        from in_toto.models.link import Link
+        link = Link(name=step if name is None else name, materials=M or {}, products=P or {}, command=["build"])
+        md = make_md(link, dsse)
+        for sg in (signer if isinstance(signer, list) else [signer]):
+            if sg is None:
+                continue
+            if isinstance(sg, tuple):
+                self.env.gpg_sign(md, sg[1], faked)
+            else:
+                self.env.sign(md, sg)
+        fj = to_file(md)
+        if rewrite:
+            fj["signatures"][0]["keyid"] = rewrite
+        if tamper:
+            fj = tamper_file(None, fj, tamper)
+        fn = "%s.%s.link" % (step, fname_id[:8])
+        self.files[fn] = {"json": fj}
+        return fn
+
+    def layout_file(self, owner, dsse=False):
+        from in_toto.models.layout import Layout
+        md = make_md(Layout(steps=self.steps, inspect=[], keys=copy.deepcopy(self.keys), expires=EXPIRES), dsse)
+        self.env.sign(md, owner)
+        return to_file(md)
+
+    def tree(self):
+        return {"files": self.files, "dirs": self.dirs}
+
+    def sublayout(self, step, fname_id, sub, owner, dsse=False, with_dir=True):
+        """the evidence of [step] by [owner] is the layout of Pin [sub]; its links live in <step>.<fname_id[:8]>/"""
+        self.files["%s.%s.link" % (step, fname_id[:8])] = {"json": sub.layout_file(owner, dsse)}
+        if with_dir:
+            self.dirs["%s.%s" % (step, fname_id[:8])] = sub.tree()
+
+    def scenario(self, owner, workdir, tags=(), dsse=False, expect=None):
+        return {"root": {"json": self.layout_file(owner, dsse)}, "dir": self.tree(), "keys": {owner.keyid: owner.pub},
+                "params": None, "now_us": NOW_US, "tags": list(tags), "logpath": os.path.join(workdir, "insp.log"),
+                "expect": expect}
+
+
+KERNEL_SAMPLE_MAX_CHARS = 20000
+
+
+def verdict(out):
+    """'accept' / exception class name / 'load_err' of one run_impl outcome"""
+    return "accept" if "ok" in out else ("load_err" if "load_err" in out else out.get("exc"))
+
+
+def model_verdict(rec):
+    a = rec.get("model_raw")
+    if not isinstance(a, dict):
+        return "driver"
+    return "accept" if "ok" in a else ("load_err" if "load_err" in a else a.get("err"))
+
+
+def check_expectations(ctx, pinned, mk_replay):
+    """pinned scenarios state the verdict the PROPERTY demands (scen['expect']: 'accept' / exception class name) and,
+    optionally, the artifacts the summary link must show (scen['expect_summary']: {'materials':…, 'products':…});
+    a deviation of the real code is a violation with a replay, whatever the model says.  Returns a summary dict."""
+    summary = {}
+    for r in pinned:
+        name, exp, exps = r["pinned"], r["scen"].get("expect"), r["scen"].get("expect_summary")
+        got, mod = verdict(r["impl"][0]), model_verdict(r)
+        summary[name] = {"impl": got, "model": mod, "expected": exp}
+        if exp is not None and got != exp:
+            ctx.violation("pinned case %s: in_toto_verify gave %s, the property demands %s [model: %s]"
+                          % (name, got, exp, mod), mk_replay(r))
+        elif exps and got == "accept":
+            for field, want in exps.items():
+                if r["impl"][0]["ok"].get(field) != want:
+                    summary[name]["summary_" + field] = "differs"
+                    ctx.violation("pinned case %s: the summary link's %s are not those of the expected representative link"
+                                  % (name, field), mk_replay(r))
+                    break
+    return summary
+
+
+def run_all(ctx, opt_sets, n, families=("ed25519",), use_gpg=False, pinned=(), shards=16, post=None):
+    """like vcore.run_scenarios, plus: the hand-built scenarios [pinned] = [(name, fn(env, workdir) -> scenario)]
+    run first (records carry 'pinned': name), and the model is evaluated by [shards] driver processes.
+    Returns (pinned records, generated records, model)."""
+    import time
+    from vlib import core
+    env = Env(ctx.rng, ctx.work, families=families, use_gpg=use_gpg)
+    recs = []
+    wd = os.path.join(ctx.work, "sc")
+    os.makedirs(wd, exist_ok=True)
+    try:
+        for name, fn in pinned:
+            env.rows, env.msgs, env._msgidx = [], [], {}
+            scen = fn(env, wd)
+            scen["tags"] = ["pinned:" + name] + scen["tags"]
+            outs, exec_table = run_impl(scen, wd)
+            recs.append({"scen": scen, "impl": outs, "req": model_request(scen, env, exec_table, int(time.time())),
+                         "opts": {"pinned": name}, "pinned": name})
+        for i in range(n):
+            opts = opt_sets[i % len(opt_sets)]
+            env.rows, env.msgs, env._msgidx = [], [], {}
+            scen = build(ctx.rng, env, opts, wd)
+            if post:
+                post(ctx.rng, scen, env)
+            outs, exec_table = run_impl(scen, wd)
+            recs.append({"scen": scen, "impl": outs, "req": model_request(scen, env, exec_table, int(time.time())), "opts": opts})
+    finally:
+        env.close()
+    model = core.Model()
+    ans = model.batch([("verify", r["req"]) for r in recs], shards=max(1, min(shards, len(recs) // 4)))
+    for r, a in zip(recs, ans):
+        r["model_raw"] = a
+        r["model"] = norm_model_outcome(a) if isinstance(a, dict) else {"err": "driver"}
+        r["diff"] = compare(r["impl"][0], r["model"])
+    # core.kernel_sample re-evaluates a random sample of model.lines inside coqc; one request becomes one list literal
+    # and coqc's parser overflows its stack on a list of more than ~35 000 elements (measured: 30 000 fine, 45 000
+    # "Stack overflow"), which requests with gpg key bundles reach.  Offer only requests the kernel can read.
+    small = [i for i, l in enumerate(model.lines) if len(l) <= KERNEL_SAMPLE_MAX_CHARS and model.raw[i] is not None]
+    if small:
+        model.lines, model.raw = [model.lines[i] for i in small], [model.raw[i] for i in small]
+    return [r for r in recs if "pinned" in r], [r for r in recs if "pinned" not in r], model
+
+
+def replay(ctx, pid, obj):
+    """re-execute a stored scenario against the current code and the model (no private keys needed: only the stored
+    files are verified).  Inspection commands of the stored layouts append to the log file of the ORIGINAL run; that
+    path is part of signed content, so it is kept (its directory is recreated for the run) rather than rewritten."""
+    import re
+    import shutil
+    from vlib import core
+    r = obj["replay"]
+    req = dict(r["request"])
+    wd = os.path.join(ctx.work, "sc")
+    os.makedirs(wd, exist_ok=True)
+    logpath, made = os.path.join(wd, "insp.log"), None
+    m = re.search(r">> (/[^\s\"\\]*insp\.log)", json.dumps(req["root"]) + json.dumps(req["dir"]) + json.dumps(req.get("b64", {})))
+    if m:
+        logpath = m.group(1)
+        d = os.path.dirname(logpath)
+        top = d
+        while not os.path.exists(os.path.dirname(top)):
+            top = os.path.dirname(top)
+        if not os.path.exists(d):
+            os.makedirs(d)
+            made = top
+    scen = {"root": req["root"], "dir": req["dir"], "keys": req["keys"], "params": req["params"],
+            "now_us": req["now_us"], "tags": r.get("tags", []), "logpath": logpath}
+    try:
+        outs, exec_table = run_impl(scen, wd)
+    finally:
+        if made:
+            shutil.rmtree(made, ignore_errors=True)
+    req["exec"] = exec_table
+    a = core.Model().batch([("verify", req)])[0]
+    mo = norm_model_outcome(a) if isinstance(a, dict) else {"err": "driver"}
+    d = compare(outs[0], mo)
+    print("impl :", verdict(outs[0]), "log", outs[0].get("log"))
+    print("model:", "accept" if "ok" in mo else mo.get("err", mo), "trace", len(mo.get("trace", [])))
+    if d and d != "unmodelled":
+        print("  -> " + d)
+        print("VIOLATION property=%s replay=%s" % (pid, obj.get("rerun", "").split()[-1]))
+        return 1
+    print("agree")
+    return 0
